@@ -28,6 +28,9 @@ def check(ctx):
         raise AnalysisError('load.process_resources: pair loop not found')
     C13.driven_to_end(ctx, pr_, zl_[0], [n for n in all_ if n is not zl_[0]])
     C13.source_asked_first(ctx, ld_)
+    # ... the same for the sub-flows of sources(): their resource iterators are iterated to their end
+    from checks import C16 as _C16
+    _C16.sources_clause(ctx)
     errors.r14_stopiteration_drivers(ctx)
     run.rule('R15', 'COMMIT-ORDER: commit points (checkpoint rename, dump descriptor, zip finalisation) come after the loop '
                     'over all resource streams on the normal path and are never reachable from an except / finally block')
